@@ -11,7 +11,7 @@ std::vector<Sub> vh_subs() {
     s.name = "vec";
     s.fields = {{"k", 1, 16}, {"op", 0, vecops::NOPS - 1}, {"res_size", 0, 5}, {"a_size", 0, 5}, {"b_size", 0, 5}, {"res_pad", 0, 4}, {"a_pad", 0, 4},
                 {"b_pad", 0, 4}, {"extra", 0, 2}, {"mtype", 0, 1}, {"cfg", 0, 1}, {"pmode", 0, 3}, {"pj", 0, 17}, {"pu", 0, INT64_MAX - 1},
-                {"neg", 0, 1}, {"prefill", 0, 3}, {"bits", 1, 61}, {"alias", 0, 5}, {"seed", 0, INT64_MAX - 1}};
+                {"neg", 0, 1}, {"prefill", 0, 3}, {"bits", 1, 61}, {"alias", 0, 6}, {"seed", 0, INT64_MAX - 1}};
     s.run = [](const Vals& v, Ctx& ctx) {
       vecops::Case c;
       c.k = v[0];
@@ -29,7 +29,7 @@ std::vector<Sub> vh_subs() {
       c.bits = (int)v[16];
       c.seed = (uint64_t)v[18];
       // the statement covers aliased calls too ("unless aliased with the output"): half of the cases alias the output with an operand
-      { static const int amap[6] = {0, 0, 0, 1, 2, 3}; c.alias = amap[v[17]]; }
+      { static const int amap[7] = {0, 0, 0, 1, 2, 3, 4}; c.alias = amap[v[17]]; }  // 4: a and b are two views (sizes may differ) of one input buffer
       if (vecops::OPS[c.op].res_big && c.alias) { c.rpad = c.apad = c.bpad = 0; }
       vecops::run(ctx, c);
       const auto& o = vecops::OPS[c.op];
